@@ -112,6 +112,23 @@ impl Report {
         }
         self.outcome(&format!("violation:{}", key));
     }
+    /// a violation with a description of the exact instance (input / order / history); when the
+    /// matching known finding lists its instances, an instance that is not listed stays a violation
+    pub fn violate_inst(&mut self, key: &str, instance: &str, detail: String, case: Value) {
+        let h = hex::encode(&saito_core::core::util::crypto::hash(instance.as_bytes())[..8]);
+        if let Ok(path) = std::env::var("VERIF_DUMP_INSTANCES") {
+            use std::io::Write;
+            let _g = DUMP_LOCK.lock();
+            if let Ok(mut f) = std::fs::OpenOptions::new().create(true).append(true).open(&path) {
+                let _ = writeln!(f, "{}\t{}", key, h);
+            }
+        }
+        let listed = known_findings().iter().find(|f| f.property == self.id && f.status == "open" && key.starts_with(&f.key) && f.instances.is_some()).map(|f| f.instances.as_ref().unwrap().contains(&h));
+        match listed {
+            Some(false) => self.violate(&format!("{}{}", key, UNLISTED), detail, case),
+            _ => self.violate(key, detail, case),
+        }
+    }
     pub fn machinery(&mut self, msg: String) {
         self.machinery_errors.push(msg);
     }
@@ -150,12 +167,12 @@ impl Report {
                     (format!("vacuity: outcome class '{}' was never produced by the harness", r));
             }
         }
-        let findings = load_known_findings();
+        let findings = known_findings().clone();
         let mut unlisted: Vec<&Violation> = vec![];
         let mut known_hit: BTreeMap<String, (String, u64)> = BTreeMap::new();
         for v in self.violations.iter() {
             let m = findings.iter().find(|f| {
-                f.property == self.id && f.status == "open" && v.key.starts_with(&f.key)
+                f.property == self.id && f.status == "open" && v.key.starts_with(&f.key) && !v.key.ends_with(UNLISTED)
             });
             match m {
                 Some(f) => {
@@ -275,7 +292,19 @@ pub struct Finding {
     pub key: String,
     pub status: String,
     pub what: String,
+    /// when present, only these instances (64-bit hashes of the instance description) of the key
+    /// are the recorded finding; any other instance under the same key is reported
+    pub instances: Option<BTreeSet<String>>,
 }
+
+static FINDINGS: std::sync::OnceLock<Vec<Finding>> = std::sync::OnceLock::new();
+static DUMP_LOCK: std::sync::Mutex<()> = std::sync::Mutex::new(());
+
+pub fn known_findings() -> &'static Vec<Finding> {
+    FINDINGS.get_or_init(load_known_findings)
+}
+
+pub const UNLISTED: &str = "#unlisted-instance";
 
 pub fn load_known_findings() -> Vec<Finding> {
     let p = verif_dir().join("known_findings.json");
@@ -294,6 +323,16 @@ pub fn load_known_findings() -> Vec<Finding> {
                 key: f["key"].as_str().unwrap_or("\u{0}").to_string(),
                 status: f["status"].as_str().unwrap_or("open").to_string(),
                 what: f["what"].as_str().unwrap_or("").to_string(),
+                instances: f["instances_file"].as_str().map(|rel| {
+                    let path = verif_dir().join(rel);
+                    match std::fs::read_to_string(&path) {
+                        Ok(t) => t.lines().map(|l| l.trim().to_string()).filter(|l| !l.is_empty()).collect(),
+                        Err(e) => {
+                            eprintln!("MACHINERY-ERROR: instances file {} of a known finding is not readable: {}", path.display(), e);
+                            std::process::exit(2);
+                        }
+                    }
+                }),
             });
         }
     }
